@@ -143,6 +143,8 @@ def tags(prog):
                     cols({k_: v_ for k_, v_ in x.items() if k_ not in ("op", "at")})
                 if keys & refs:
                     t.add("group-key-in-pipe")
+            if op == "window" and s.get("fk") in ("rows", "range") and isinstance(s.get("lo"), int) and isinstance(s.get("hi"), int) and s["lo"] > s["hi"]:
+                t.add("window-frame-inverted")
             if op in ("group", "window"):
                 walk(s["pipe"], names, depth + 1)
             if op == "append" and len(s["with"]) == 1 and s["with"][0]["op"] == "from":
